@@ -1,32 +1,57 @@
 import Ptk.Proto
 import Ptk.Model.C15
+import Ptk.Model.C15Suggest
 import Ptk.Gen.PyChars
+import Ptk.Gen.C15
 import Std.Data.HashSet
 open Ptk Ptk.Py Ptk.Proto Ptk.C15
 
 /-
   Line protocol driver for the C15 model.
 
-  init <cwt> <hasV> <vwt> <hasS> <maxN> <fixD1> <va> <vp> <vr> <sa> <sp> <sr> <slit>
-       <text> <cur> <ncomp> (<back> <echo> <lit>)*
+  init <cwt> <hasV> <vwt> <hasS> <maxN> <fixD1> <threaded> <qcap> <va> <vp> <vr> <sa> <sp> <sr> <slit>
+       <text> <cur> <ncomp> (<back> <echo> <lit>)*        (qcap 0 = the regenerated Gen.C15.bufferSize)
   ins s: | delb n | del n | cur v | text s: | next c dw | prev c dw | cancel | startc m | tab
-  apply s: start | vsync | reset s: c | hist
+  apply s: start | vsync | reset s: c | hist | ssel | xsel   (start_selection / exit_selection)
   kill c|v|s     -- cancel the task waiting in the completer / validator / suggester
   killp k        -- cancel the k-th pending task before its first step
   start k        -- first step of the k-th pending task (creation order)
   rel c|v|s      -- resume the (first) task waiting in the completer / validator / suggester
   drain          -- start pending tasks in creation order until none is pending
   nrel c|v|s     -- what a real asyncio loop does on a wake-up: drain, resume, drain
+  prun           -- ThreadedCompleter: the producer thread runs until it blocks again (next
+                    `next()` of the user's generator, a full queue, or its end)
+  (with a threaded completer `rel c` = the `q.get` job returns and its result is delivered,
+   or `runner_f` is delivered; after every op the consumer runs on until it awaits)
+
+  hand-off alone (`generator_to_async_generator(iterable of n items, buffer_size=cap)` read by
+  a consumer that leaves the loop after `limit` items):
+  hinit n cap limit | hstart | hp | htake | hrel | hkill | hfin
+
+  hsugg <n> <history string>*n <text>   -- AutoSuggestFromHistory.get_suggestion (stateless)
 
   enum <depth> <maxstates> <op>*   -- breadth-first exploration of the model from the
        current state over the given action alphabet (`_` for blanks inside an op); prints
        one line "paths <n> | a;b;c | ..." (input generation for the harness).
 -/
 
+/-- consumer of the stand-alone hand-off family -/
+inductive HCons | idle | reading | closing | closingCancelled | finished | cancelled
+deriving DecidableEq, Repr
+
+structure HSim where
+  h : HS
+  limit : Nat
+  cons : HCons
+  /-- items handed to the client -/
+  received : Nat
+deriving DecidableEq, Repr
+
 structure DState where
   cfg : Config
   env : Env
   s : St
+  hand : Option HSim := none
 
 def encOptText : Option Text → String
   | none => "N"
@@ -55,9 +80,9 @@ def isPending : Task → Bool
   | _ => false
 
 def kindOf : Task → Char
-  | .cPend _ | .cLoad .. => 'c'
-  | .vPend | .vWait _ => 'v'
-  | .sPend | .sWait _ => 's'
+  | .cPend _ | .cLoad .. | .cLoadT .. | .cCloseT .. => 'c'
+  | .vPend | .vWait _ _ => 'v'
+  | .sPend | .sWait _ _ => 's'
 
 def encPending (ts : List Task) : String :=
   let l := ts.filterMap fun
@@ -67,15 +92,34 @@ def encPending (ts : List Task) : String :=
     | _ => none
   if l.isEmpty then "-" else ",".intercalate l
 
+def encQ (q : List QItem) : String :=
+  if q.isEmpty then "e" else ".".intercalate (q.map fun | .item j => toString j | .done => "D")
+
+def encPc : PPc → String
+  | .new => "w"
+  | .next k => s!"n{k}"
+  | .got k => s!"g{k}"
+  | .put k => s!"p{k}"
+  | .full k => s!"p{k}"
+  | .fin _ => "f"
+  | .finFull _ => "f"
+  | .exit _ _ => "x"
+
+def encStage (h : HS) : String :=
+  if h.inbox.isSome then "i" else if h.getter then "g" else "r"
+
 def encWaiting (ts : List Task) : String :=
   let c := ts.filterMap fun
     | .cLoad _ d i _ => some s!"c:{encStr d.text}:{d.cur}:{i}"
+    | .cLoadT _ d _ h => some s!"ct:{encStr d.text}:{d.cur}:{encStage h}:{encPc h.pc}:{encQ h.q}:{encBool h.quitting}"
+    | .cCloseT _ d _ h false => some s!"ct:{encStr d.text}:{d.cur}:z:{encPc h.pc}:{encQ h.q}:{encBool h.quitting}"
+    | .cCloseT _ d _ h true => some s!"ct:{encStr d.text}:{d.cur}:zk:{encPc h.pc}:-:{encBool h.quitting}"
     | _ => none
   let v := ts.filterMap fun
-    | .vWait d => some s!"v:{encStr d.text}:{d.cur}"
+    | .vWait d _ => some s!"v:{encStr d.text}:{d.cur}"
     | _ => none
   let s := ts.filterMap fun
-    | .sWait d => some s!"s:{encStr d.text}:{d.cur}"
+    | .sWait d _ => some s!"s:{encStr d.text}:{d.cur}"
     | _ => none
   let l := c ++ v ++ s
   if l.isEmpty then "-" else ",".intercalate l
@@ -83,7 +127,8 @@ def encWaiting (ts : List Task) : String :=
 def encState (e : Bool) (s : St) : String :=
   (if e then "err" else "ok") ++ " " ++ encStr s.text ++ " " ++ toString s.cur ++ " " ++
   encCs s.cs ++ " " ++ encVs s.vs ++ " " ++ encOptText s.verr ++ " " ++ encOptText s.sugg ++ " " ++
-  encBool s.runC ++ encBool s.runV ++ encBool s.runS ++ " " ++
+  encStr (shownSuggestion s) ++ " " ++
+  encBool s.runC ++ encBool s.runV ++ encBool s.runS ++ encBool s.sel.isSome ++ " " ++
   encPending s.tasks ++ " " ++ encWaiting s.tasks
 
 /-- index in the task list of the k-th pending task -/
@@ -96,16 +141,74 @@ def firstWaiting (ts : List Task) (kind : Char) : Option Nat :=
   (List.range ts.length).find? fun i =>
     match ts[i]? with | some t => !isPending t && kindOf t == kind | none => false
 
-def drain (s : St) : Nat → St
+/-! ### threaded completer: macro steps matching what the real threads do between two gates -/
+
+def taskHS : Task → Option HS
+  | .cLoadT _ _ _ h => some h
+  | .cCloseT _ _ _ h _ => some h
+  | _ => none
+
+/-- the producer thread cannot go on by itself: it waits in user code, has returned, or waits
+    for room in the queue -/
+def prodBlocked (h : HS) : Bool :=
+  match h.pc with
+  | .new | .next _ | .exit _ _ => true
+  | .put _ | .fin _ => decide (h.cap ≤ h.q.length) && !h.quitting
+  | _ => false
+
+def prodSettle (h : HS) : Nat → HS
+  | 0 => h
+  | f + 1 => if prodBlocked h then h else prodSettle (prodStep h) f
+
+/-- the schedule releases the producer's gate (thread start / next item of the generator) -/
+def prodMacro (h : HS) : HS :=
+  match h.pc with
+  | .new | .next _ => prodSettle (prodStep h) 16
+  | _ => prodSettle h 16
+
+/-- a threaded consumer in the middle of its `get_nowait` loop -/
+def isRunningT : Task → Bool
+  | .cLoadT _ _ _ h => !h.getter && h.inbox.isNone
+  | _ => false
+
+def findTask (ts : List Task) (p : Task → Bool) : Option Nat :=
+  (List.range ts.length).find? fun i => match ts[i]? with | some t => p t | none => false
+
+/-- the event loop runs every threaded consumer on until it awaits -/
+def settleC (cfg : Config) (env : Env) (s : St) : Nat → St
+  | 0 => s
+  | f + 1 =>
+    match findTask s.tasks isRunningT with
+    | some i => settleC cfg env (resumeTask cfg env s i) f
+    | none => s
+
+def settle (d : DState) (s : St) : St := settleC d.cfg d.env s 4096
+
+def setHS (s : St) (i : Nat) (h : HS) : St :=
+  match s.tasks[i]? with
+  | some (.cLoadT m doc tok _) => { s with tasks := s.tasks.set i (.cLoadT m doc tok h) }
+  | some (.cCloseT m doc tok _ c) => { s with tasks := s.tasks.set i (.cCloseT m doc tok h c) }
+  | _ => s
+
+def drain (cfg : Config) (env : Env) (s : St) : Nat → St
   | 0 => s
   | fuel + 1 =>
     match nthPending s.tasks 0 with
-    | some i => drain (startTask s i) fuel
+    | some i => drain cfg env (settleC cfg env (startTask cfg env s i) 4096) fuel
     | none => s
 
 def release (cfg : Config) (env : Env) (s : St) (kind : Char) : St :=
   match firstWaiting s.tasks kind with
-  | some i => resumeTask cfg env s i
+  | some i =>
+    match s.tasks[i]? with
+    | some (.cLoadT _ _ _ h) =>
+      -- the `q.get` job returns (if there is something to get) and its result is delivered
+      if h.inbox.isSome then settleC cfg env (resumeTask cfg env s i) 4096
+      else if h.getter && !h.q.isEmpty then settleC cfg env (resumeTask cfg env (takeTask s i) i) 4096
+      else s
+    | some (.cCloseT _ _ _ h _) =>
+      if h.pc.isExit then settleC cfg env (resumeTask cfg env s i) 4096 else s
+    | _ => settleC cfg env (resumeTask cfg env s i) 4096
   | none => s
 
 def parseComps : Nat → List String → Option (List CompSpec)
@@ -119,10 +222,11 @@ def parseComps : Nat → List String → Option (List CompSpec)
   | _, _ => none
 
 def parseInit : List String → Option DState
-  | cwt :: hasV :: vwt :: hasS :: maxN :: fix :: va :: vp :: vr :: sa :: sp :: sr :: slit ::
+  | cwt :: hasV :: vwt :: hasS :: maxN :: fix :: thr :: qcap :: va :: vp :: vr :: sa :: sp :: sr :: slit ::
     text :: cur :: nc :: rest => do
     let cfg : Config := ⟨← decBool cwt, ← decBool hasV, ← decBool vwt, ← decBool hasS,
-                         ← decNat maxN, ← decBool fix⟩
+                         ← decNat maxN, ← decBool fix, ← decBool thr,
+                         (fun q => if q = 0 then Gen.C15.bufferSize else q) (← decNat qcap)⟩
     let va ← decNat va
     let vp ← decNat vp
     let vr ← decNat vr
@@ -135,7 +239,60 @@ def parseInit : List String → Option DState
     let nc ← decNat nc
     let spec ← parseComps nc rest
     let env : Env := ⟨mkComp spec, mkValid va vp vr, mkSugg sa sp sr slit, Gen.isSpace⟩
-    pure ⟨cfg, env, init ⟨text, min cur text.length⟩⟩
+    pure ⟨cfg, env, init ⟨text, min cur text.length⟩, none⟩
+  | _ => none
+
+/-! ### the hand-off alone -/
+
+def hSettleP (x : HSim) : HSim := { x with h := prodSettle x.h 32 }
+
+/-- the consumer's `get_nowait` loop until it awaits -/
+def hConsume (x : HSim) : Nat → HSim
+  | 0 => x
+  | f + 1 =>
+    match popNow x.h with
+    | none => { x with h := submitGet x.h }
+    | some (.done, h') => { x with h := quit h', cons := .closing }
+    | some (.item _, h') =>
+      if x.received + 1 ≥ x.limit then { x with h := quit h', received := x.received + 1, cons := .closing }
+      else hConsume { x with h := h', received := x.received + 1 } f
+
+def encHCons : HCons → String
+  | .idle => "idle" | .reading => "reading" | .closing => "closing"
+  | .closingCancelled => "closingK" | .finished => "finished" | .cancelled => "cancelled"
+
+def encHSim (x : HSim) : String :=
+  "H " ++ encHCons x.cons ++ " " ++ encPc x.h.pc ++ " " ++ encQ x.h.q ++ " " ++ encBool x.h.quitting ++ " " ++
+  encStage x.h ++ " " ++ toString x.received
+
+def hOp (x : HSim) : List String → Option HSim
+  | ["hstart"] =>
+    if x.cons == .idle then some (hSettleP (hConsume { x with cons := .reading } 4096)) else some x
+  | ["hp"] => if x.cons == .idle then some x else some { x with h := prodMacro x.h }
+  | ["htake"] =>
+    if x.cons == .reading || x.cons == .closingCancelled then some (hSettleP { x with h := take x.h }) else some x
+  | ["hrel"] =>
+    if x.cons == .reading then
+      match deliver x.h with
+      | some (.done, h') => some (hSettleP { x with h := quit h', cons := .closing })
+      | some (.item _, h') =>
+        if x.received + 1 ≥ x.limit then
+          some (hSettleP { x with h := quit h', received := x.received + 1, cons := .closing })
+        else some (hSettleP (hConsume { x with h := h', received := x.received + 1 } 4096))
+      | none => some x
+    else some x
+  | ["hkill"] =>
+    match x.cons with
+    | .reading => some (hSettleP { x with h := quit x.h, cons := .closingCancelled })
+    | .closing | .closingCancelled => some { x with cons := .cancelled }
+    | _ => some x
+  | ["hfin"] =>
+    if x.h.pc.isExit then
+      match x.cons with
+      | .closing => some { x with cons := .finished }
+      | .closingCancelled => some { x with cons := .cancelled }
+      | _ => some x
+    else some x
   | _ => none
 
 /-- a user/scheduler operation of the protocol -/
@@ -156,16 +313,22 @@ def applyOp (d : DState) : List String → Option (St × Bool)
   | ["start", k] => do
     let k ← decNat k
     match nthPending d.s.tasks k with
-    | some i => pure (step d.cfg d.env d.s (.start i))
+    | some i => pure (settle d (step d.cfg d.env d.s (.start i)).1, false)
     | none => pure (d.s, false)
   | ["rel", k] =>
     match k.toList with
-    | [c] =>
-      match firstWaiting d.s.tasks c with
-      | some i => some (step d.cfg d.env d.s (.resume i))
-      | none => some (d.s, false)
+    | [c] => some (release d.cfg d.env d.s c, false)
     | _ => none
+  | ["prun"] =>
+    match findTask d.s.tasks (fun t => (taskHS t).isSome) with
+    | some i =>
+      match d.s.tasks[i]? >>= taskHS with
+      | some h => some (setHS d.s i (prodMacro h), false)
+      | none => some (d.s, false)
+    | none => some (d.s, false)
   | ["hist"] => some (step d.cfg d.env d.s .histComplete)
+  | ["ssel"] => some (step d.cfg d.env d.s .startSel)
+  | ["xsel"] => some (step d.cfg d.env d.s .exitSel)
   | ["kill", k] =>
     match k.toList with
     | [c] =>
@@ -178,16 +341,16 @@ def applyOp (d : DState) : List String → Option (St × Bool)
     match nthPending d.s.tasks k with
     | some i => pure (step d.cfg d.env d.s (.kill i))
     | none => pure (d.s, false)
-  | ["drain"] => some (drain d.s (d.s.tasks.length + 8), false)
+  | ["drain"] => some (drain d.cfg d.env d.s (d.s.tasks.length + 8), false)
   | ["nrel", k] =>
     match k.toList with
     | [c] =>
       -- the wake-up is only delivered when somebody is waiting at the time of the release
       let had := (firstWaiting d.s.tasks c).isSome
-      let s1 := drain d.s (d.s.tasks.length + 8)
+      let s1 := drain d.cfg d.env d.s (d.s.tasks.length + 8)
       if had then
         let s2 := release d.cfg d.env s1 c
-        some (drain s2 (s2.tasks.length + 8), false)
+        some (drain d.cfg d.env s2 (s2.tasks.length + 8), false)
       else some (s1, false)
     | _ => none
   | _ => none
@@ -201,14 +364,45 @@ def enumOpText (d : DState) (op : String) : String :=
   else if op == "cur_+1" then "cur " ++ toString ((d.s.cur : Int) + 1)
   else op.replace "_" " "
 
-def enumOp (d : DState) (op : String) : Option (St × Bool) :=
-  applyOp d ((enumOpText d op).splitOn " ")
+/-- an op of either family on the whole driver state -/
+def applyAny (d : DState) (toks : List String) : Option (DState × Bool) :=
+  match toks with
+  | "hinit" :: n :: cap :: limit :: [] => do
+    let n ← decNat n
+    let cap ← decNat cap
+    let limit ← decNat limit
+    pure ({ d with hand := some ⟨HS.init n cap, limit, .idle, 0⟩ }, false)
+  | _ =>
+    match d.hand with
+    | some x =>
+      match hOp x toks with
+      | some x' => some ({ d with hand := some x' }, false)
+      | none => none
+    | none =>
+      match applyOp d toks with
+      | some (s', e) => some ({ d with s := s' }, e)
+      | none => none
 
-def stateKey (e : Bool) (s : St) : String :=
-  let linked := s.tasks.filterMap fun
-    | .cLoad _ _ _ tok => some (match s.cs with | some st => encBool (st.token == tok) | none => "n")
-    | _ => none
-  encState e s ++ " " ++ "".intercalate linked
+def encAny (e : Bool) (d : DState) : String :=
+  match d.hand with
+  | some x => encHSim x
+  | none => encState e d.s
+
+def enumOp (d : DState) (op : String) : Option (DState × Bool) :=
+  applyAny d ((enumOpText d op).splitOn " ")
+
+def stateKey (e : Bool) (d : DState) : String :=
+  match d.hand with
+  | some x => encHSim x ++ " " ++ encPc x.h.pc ++ (match x.h.pc with | .exit k b => s!"{k}{b}" | _ => "")
+  | none =>
+    let s := d.s
+    let lk := fun (tok : Nat) => match s.cs with | some st => encBool (st.token == tok) | none => "n"
+    let linked := s.tasks.filterMap fun
+      | .cLoad _ _ _ tok => some (lk tok)
+      | .cLoadT _ _ tok h => some (lk tok ++ toString h.got.length)
+      | .cCloseT _ _ tok _ _ => some (lk tok)
+      | _ => none
+    encState e s ++ " " ++ "".intercalate linked
 
 /-- Breadth-first exploration to `depth` over `alphabet`, merging equal states.  Emits the
     action path of every edge that is not a proper prefix of another emitted path: all edges
@@ -216,26 +410,32 @@ def stateKey (e : Bool) (s : St) : String :=
     between explored states is therefore exercised by at least one emitted path. -/
 partial def bfs (d0 : DState) (depth maxStates : Nat) (alphabet : List String) : List String := Id.run do
   let mut seen : Std.HashSet String := {}
-  seen := seen.insert (stateKey false d0.s)
-  let mut frontier : Array (St × List String) := #[(d0.s, [])]
+  seen := seen.insert (stateKey false d0)
+  -- the flag marks paths on which the producer of the stand-alone hand-off returns without
+  -- having put `_Done` (it went through real one-second `Full` timeouts: expensive to replay)
+  let slowOf := fun (d : DState) => match d.hand with
+    | some x => (match x.h.pc with | .exit _ false => true | _ => false)
+    | none => false
+  let mut frontier : Array (DState × List String × Bool) := #[(d0, [], false)]
   let mut out : Array String := #[]
   let mut n := 1
   for lvl in [0:depth] do
-    let mut next : Array (St × List String) := #[]
-    for (s, path) in frontier do
-      let d : DState := { d0 with s := s }
+    let mut next : Array (DState × List String × Bool) := #[]
+    for (d, path, slow) in frontier do
       for op in alphabet do
         match enumOp d op with
-        | some (s', e) =>
-          let key := stateKey e s'
+        | some (d', e) =>
+          let key := stateKey e d'
           let p := enumOpText d op :: path
+          let slow' := slow || slowOf d'
+          let emit := ";".intercalate (if slow' then ("#slow" :: p).reverse else p.reverse)
           if seen.contains key || n ≥ maxStates then
-            out := out.push (";".intercalate p.reverse)
+            out := out.push emit
           else
             seen := seen.insert key
             n := n + 1
-            next := next.push (s', p)
-            if lvl + 1 == depth then out := out.push (";".intercalate p.reverse)
+            next := next.push (d', p, slow')
+            if lvl + 1 == depth then out := out.push emit
         | none => pure ()
     frontier := next
   return out.toList
@@ -252,13 +452,28 @@ def stepLine (d : DState) (toks : List String) : DState × String :=
       let paths := bfs d k m alphabet
       (d, "paths " ++ toString paths.length ++ " | " ++ " | ".intercalate paths)
     | _, _ => (d, "bad-op")
+  | "hsugg" :: n :: rest =>
+    -- AutoSuggestFromHistory: hsugg <n> <history string>*n <document text>
+    match decNat n with
+    | some k =>
+      match (rest.take k).mapM decStr, rest.drop k with
+      | some hist, [t] =>
+        match decStr t with
+        | some text => (d, encOptText (histSuggest Gen.isSpace splitlinesNl hist text))
+        | none => (d, "bad-op")
+      | _, _ => (d, "bad-op")
+    | none => (d, "bad-op")
+  | ["slowq"] =>
+    (d, match d.hand with
+        | some x => (match x.h.pc with | .exit _ false => "slow 1" | _ => "slow 0")
+        | none => "slow 0")
   | _ =>
-    match applyOp d toks with
-    | some (s', e) => ({ d with s := s' }, encState e s')
+    match applyAny d toks with
+    | some (d', e) => (d', encAny e d')
     | none => (d, "bad-op")
 
 def main : IO Unit :=
   runS stepLine
-    { cfg := ⟨false, false, false, false, 10000, true⟩,
+    { cfg := ⟨false, false, false, false, 10000, true, false, 1000⟩,
       env := ⟨fun _ => [], fun _ => none, fun _ => none, Gen.isSpace⟩,
       s := init ⟨[], 0⟩ }
